@@ -122,6 +122,9 @@ var followBytes = []int{-1, ' ', ',', ']', '}', '.', 'e', 'E', 'x', '0', '5', '-
 
 func genInts(c *genCtx, sw *shardWriter, j *jb) {
 	emit := func(s string) { runInt(sw, j, []byte(s), c.st) }
+	for _, d := range lenientDocs() {
+		emit(string(d))
+	}
 	withFollow := func(lit string, all bool) {
 		if all {
 			emit(lit)
@@ -432,6 +435,9 @@ func genStrings(c *genCtx, sw *shardWriter, j *jb) {
 			}
 		}
 	}
+	for _, d := range lenientDocs() {
+		emit(d)
+	}
 	// spec states at top level inside a string token (and every transition into one) x all bytes x continuations
 	if c.statesPath != "" {
 		if ss, err := loadStates(c.statesPath); err == nil {
@@ -738,6 +744,9 @@ func genToks(c *genCtx, sw *shardWriter, j *jb) {
 		for b := 0; b < 256; b++ {
 			emit(append(append([]byte{}, p...), byte(b)))
 		}
+	}
+	for _, d := range lenientDocs() {
+		emit(d)
 	}
 	// non-JSON whitespace look-alikes in front of a token
 	for _, w := range []byte{0x0b, 0x0c, 0x00, 0x85, 0xa0, 0x1f, 0x7f} {
@@ -1097,6 +1106,13 @@ func genDecodes(c *genCtx, sw *shardWriter, j *jb) {
 			runDecode(sw, j, fi, []byte(s), c.st)
 			runDecode(sw, j, fi, []byte(" "+s+" "), c.st)
 			runDecode(sw, j, fi, []byte(s+",1"), c.st)
+		}
+	}
+	for di, d := range lenientDocs() {
+		for fi := range decodeFns {
+			if c.thorough() || (di+fi)%4 == 0 {
+				runDecode(sw, j, fi, d, c.st)
+			}
 		}
 	}
 	// something a reader gives up on, immediately followed by null (and by other literals)
